@@ -740,6 +740,18 @@ pub fn run(tier: Tier) -> i32 {
         for n in [1usize, 3, 12] {
             pairs.push(("count-down-recursion", format!(".macro cd_q\n.if @0 > 0\nldi r16, @0\ncd_q @0 - 1\n.endif\n.endm\ncd_q {n}\nret\n"), format!("{}ret\n", (0..n).map(|i| format!("ldi r16, {}\n", n - i)).collect::<String>())));
         }
+        // arguments at the edges of "arbitrary expressions": a flat sum of 250 terms (inside the
+        // per-line limits when written by hand), and a parenthesised name that is spelled like an
+        // index register
+        {
+            let flat = vec!["1"; 250].join("+");
+            pairs.push(("flat-argument-of-250-terms", format!(".macro big_q\nldi r16, @0\n.endm\nbig_q {}\n", flat), format!("ldi r16, {}\n", flat)));
+            let flat100 = vec!["2"; 100].join("+");
+            pairs.push(("flat-argument-of-100-terms", format!(".macro big_q\nldi r16, @0\n.endm\nbig_q {}\n", flat100), format!("ldi r16, {}\n", flat100)));
+            for nm in ["x", "y", "z"] {
+                pairs.push(("parenthesised-name-spelled-like-an-index-register-as-argument", format!(".equ {nm} = 5\n.macro ld_q\nldi r16, @0\n.endm\nld_q ({nm})\n"), format!(".equ {nm} = 5\nldi r16, ({nm})\n")));
+            }
+        }
         n_hand_pairs = pairs.len();
         for (fam, mac, hand) in pairs.iter() {
             let (o1, o2) = (sut::build_str(mac), sut::build_str(hand));
